@@ -68,6 +68,7 @@ type c09case struct {
 	Size    int    `json:"body_size"`
 	N       int    `json:"param,omitempty"`
 	Mode    string `json:"transport"`
+	Range   bool   `json:"with_range_header,omitempty"` // the client asks for bytes=0-0: the request takes the non-coalesced path
 }
 
 func c09bodyClass(n int) string {
@@ -153,6 +154,16 @@ func c09one(r *core.Recorder, w *c09world, o *rig.Origin, c c09case) {
 			}
 		}
 		w.mu.Unlock()
+	case "vanish-after-304-renewal":
+		// the 304 has renewed the entry's lifetime; before the fetcher reads the entry back it is evicted
+		if !prep() {
+			r.NotJudged("preparation-failed")
+			return
+		}
+		p.P.VerifCacheSetExpires(key, time.Now().Add(-time.Hour))
+		w.hookMu.Lock()
+		w.onHook["renewed:"+key.Hex] = func() { p.P.VerifCacheDelete(key) }
+		w.hookMu.Unlock()
 	case "vanish-before-streaming":
 		if !prep() {
 			r.NotJudged("preparation-failed")
@@ -246,8 +257,13 @@ func c09one(r *core.Recorder, w *c09world, o *rig.Origin, c c09case) {
 		}
 		restore = rs
 	}
+	if c.Range {
+		for i := range sequence {
+			sequence[i].Header = append(sequence[i].Header, [2]string{"Range", "bytes=0-0"})
+		}
+	}
 	cs := map[string]any{"id": c.ID, "case": c}
-	r.Nontrivial(c.Fault, c.Backend, c.Shards, c.Size, c.N, c.Mode)
+	r.Nontrivial(c.Fault, c.Backend, c.Shards, c.Size, c.N, c.Mode, c.Range)
 	r.Count("fault_"+c.Fault, 1)
 	var resps []*rig.Resp
 	seq := o.LastSeq()
@@ -276,6 +292,7 @@ func c09one(r *core.Recorder, w *c09world, o *rig.Origin, c c09case) {
 	w.hookMu.Lock()
 	delete(w.onHook, "serve:"+key.Hex)
 	delete(w.onHook, "afterdo:"+key.Hex)
+	delete(w.onHook, "renewed:"+key.Hex)
 	w.hookMu.Unlock()
 	var origin []rig.OriginReq
 	bad := false
@@ -295,6 +312,18 @@ func c09one(r *core.Recorder, w *c09world, o *rig.Origin, c c09case) {
 		bv := rig.CheckFull(resp.Body, c.Size)
 		wit := map[string]any{"request_index": i, "status": resp.Status, "err": fmt.Sprint(resp.Err), "body": bv.String(), "x_cache": resp.Get("X-Cache"), "origin_answers": origin, "proxy_panics": p.Panics()}
 		sig := fmt.Sprintf("C09:%s:%s:%s", c.Fault, c.Backend, c09bodyClass(c.Size))
+		if c.Range {
+			sig += ":range-request"
+		}
+		if c.Range && resp.Err == nil {
+			// a Range request: the exact first byte as 206, the complete 200, or (empty representation only) the
+			// explicit 416 are all the origin's answer reaching the client; anything else is judged below
+			okRange := (resp.Status == 206 && c.Size > 0 && len(resp.Body) == 1 && resp.Body[0] == rig.Body(9, wantVer, c.Size)[0] && strings.HasPrefix(resp.Get("Content-Range"), "bytes 0-0/")) ||
+				(resp.Status == 416 && c.Size == 0)
+			if okRange {
+				continue
+			}
+		}
 		switch {
 		case resp.Err != nil:
 			kind := "dropped"
@@ -337,6 +366,7 @@ func c09Run(b core.Batch, r *core.Recorder) {
 	})
 	verifhook.Set("proxy.serve.cached", hook("serve:"))
 	verifhook.Set("fetch.dedup.afterDo", hook("afterdo:"))
+	verifhook.Set("fetch.304.renewed", hook("renewed:"))
 	o := rig.StartOrigin(w.handler)
 	defer o.Close()
 	mode := b.Str("transport", "plain")
@@ -367,6 +397,10 @@ func c09Run(b core.Batch, r *core.Recorder) {
 			for _, sh := range shards {
 				for _, sz := range sizes {
 					emit(c09case{Fault: "empty-or-plain", Backend: be, Shards: sh, Size: sz})
+					if sh == 2 || sh == 1024 {
+						emit(c09case{Fault: "empty-or-plain", Backend: be, Shards: sh, Size: sz, Range: true})
+						emit(c09case{Fault: "cache-full-pinned", Backend: be, Shards: sh, Size: max(sz, 400), Range: true})
+					}
 					if sz > 1 {
 						emit(c09case{Fault: "cache-full-tiny-limit", Backend: be, Shards: sh, Size: sz})
 					}
@@ -381,7 +415,7 @@ func c09Run(b core.Batch, r *core.Recorder) {
 		for _, be := range backends {
 			for _, sh := range []int{1, 3, 1024} {
 				for _, sz := range []int{1, 1024, 40000} {
-					for _, f := range []string{"vanish-during-revalidation", "vanish-before-streaming", "vanish-in-handover", "overwrite-during-read", "leader-hangs-up-cold", "leader-hangs-up-stale", "refreshed-between-scan-and-removal"} {
+					for _, f := range []string{"vanish-during-revalidation", "vanish-after-304-renewal", "vanish-before-streaming", "vanish-in-handover", "overwrite-during-read", "leader-hangs-up-cold", "leader-hangs-up-stale", "refreshed-between-scan-and-removal"} {
 						emit(c09case{Fault: f, Backend: be, Shards: sh, Size: sz})
 					}
 				}
@@ -390,7 +424,7 @@ func c09Run(b core.Batch, r *core.Recorder) {
 	case "random":
 		// seeded sample of the whole product with arbitrary sizes, shard counts and failure points
 		rng := rand.New(rand.NewSource(b.Seed*7919 + int64(len(mode)) + int64(b.Int("sub", 0))*104729))
-		faults := []string{"empty-or-plain", "cache-full-tiny-limit", "cache-full-pinned", "budget-zero", "vanish-during-revalidation", "vanish-before-streaming", "vanish-in-handover",
+		faults := []string{"empty-or-plain", "cache-full-tiny-limit", "cache-full-pinned", "budget-zero", "vanish-during-revalidation", "vanish-after-304-renewal", "vanish-before-streaming", "vanish-in-handover",
 			"overwrite-during-read", "leader-hangs-up-cold", "leader-hangs-up-stale", "refreshed-between-scan-and-removal", "dir-replaced-by-file", "dir-removed", "dir-readonly",
 			"cache-files-removed-behind-the-cache", "write-fails-after-n-bytes", "write-fails-after-n-bytes", "write-fails-after-n-bytes"}
 		for i := 0; i < b.Int("count", 60); i++ {
@@ -406,6 +440,12 @@ func c09Run(b core.Batch, r *core.Recorder) {
 				c.Size = 32700 + rng.Intn(200) // around the 32 KiB copy buffer
 			default:
 				c.Size = rng.Intn(200000)
+			}
+			if rng.Intn(4) == 0 {
+				switch c.Fault {
+				case "empty-or-plain", "cache-full-tiny-limit", "cache-full-pinned", "budget-zero", "dir-replaced-by-file", "dir-removed", "dir-readonly", "write-fails-after-n-bytes":
+					c.Range = true
+				}
 			}
 			switch c.Fault {
 			case "budget-zero":
@@ -469,8 +509,8 @@ func init() {
 	core.Register(&core.Monitor{
 		ID:    "C09",
 		Level: "fault_enumeration",
-		Rule: "fault classes x backend x shard count {1,2,3,1024} x body size {0,1,1 KiB,40 kB}: size limit below the body size; cache full with the other entries sharing the storing key's shard; memory_budget_percent=0; empty body; entry deleted while the origin holds the conditional request (304 for a vanished entry); entry deleted between lookup and streaming (hook); entry deleted in the coalesced hand-over window (hook, 3 concurrent clients); entry overwritten between lookup and streaming; the entry is revalidated between the cleanup scan and its removal loop (hook); the first of two coalesced clients hangs up while the origin prepares the answer (cold and stale key); " +
-			"file backend: cache directory replaced by a file / removed / read-only, and RLIMIT_FSIZE = n for n swept over the body length (the cache file write fails after exactly n bytes). The origin is healthy in every case; each client response must be 200 with the complete body. A seeded random sample of the whole product (arbitrary body sizes 0..200 kB incl. buffer-size neighbourhoods, shard counts 1..1024, write-failure byte positions) is added to the enumerated cases. Non-trivial = distinct (fault, backend, shards, size, n, transport).",
+		Rule: "fault classes x backend x shard count {1,2,3,1024} x body size {0,1,1 KiB,40 kB}: size limit below the body size; cache full with the other entries sharing the storing key's shard; memory_budget_percent=0; empty body; entry deleted while the origin holds the conditional request (304 for a vanished entry); entry deleted right after the 304 has renewed it, before it is read back (hook fetch.304.renewed); entry deleted between lookup and streaming (hook); entry deleted in the coalesced hand-over window (hook, 3 concurrent clients); entry overwritten between lookup and streaming; the entry is revalidated between the cleanup scan and its removal loop (hook); the first of two coalesced clients hangs up while the origin prepares the answer (cold and stale key); " +
+			"file backend: cache directory replaced by a file / removed / read-only, and RLIMIT_FSIZE = n for n swept over the body length (the cache file write fails after exactly n bytes). The origin is healthy in every case; each client response must be 200 with the complete body (for the variants whose client sends Range: bytes=0-0: the exact 206, the complete 200, or 416 for an empty representation). A seeded random sample of the whole product (arbitrary body sizes 0..200 kB incl. buffer-size neighbourhoods, shard counts 1..1024, write-failure byte positions) is added to the enumerated cases. Non-trivial = distinct (fault, backend, shards, size, n, transport).",
 		Assumptions: []string{"RLIMIT_FSIZE is process-wide: it is lowered only for the duration of the faulted request; Go ignores SIGXFSZ so the write returns EFBIG", "cases where the origin itself answered with an error are not judged"},
 		Plan:        c09Plan,
 		Run:         c09Run,
